@@ -16,14 +16,14 @@ VERIF = os.path.dirname(HERE)
 sys.path.insert(0, VERIF)
 
 
-def digests(prop, n, hashseed, extra_env=None):
+def digests(prop, n, hashseed, extra_env=None, start=0):
     env = dict(os.environ)
     env["PYTHONHASHSEED"] = str(hashseed)
     env["NETQASM_VERIF_SIM"] = "1"
     env["VERIF_NO_REEXEC_HASHSEED"] = "1"
     if extra_env:
         env.update(extra_env)
-    cp = subprocess.run([os.path.join(VERIF, "check"), prop, "--digest", "--runs", str(n)],
+    cp = subprocess.run([os.path.join(VERIF, "check"), prop, "--digest", "--runs", str(n), "--start", str(start)],
                         capture_output=True, text=True, env=env, timeout=3600)
     if cp.returncode != 0:
         raise SystemExit(f"determinism: {prop} digest run failed rc={cp.returncode}\n{cp.stdout[-2000:]}\n{cp.stderr[-2000:]}")
@@ -48,8 +48,17 @@ def main():
         d1 = digests(p, n, 0)
         d2 = digests(p, n, 12345)
         d3 = digests(p, n, 0)
-        if d1 == d2 == d3:
-            print(f"determinism {p}: {n} runs x 3 interpreters (hash seeds 0, 12345, 0): identical digests")
+        # a run must not depend on what ran before it in the same process: start half-way
+        d4 = digests(p, n, 0, start=n // 2)
+        if d1 == d2 == d3 and d4 == d1[n // 2:]:
+            print(f"determinism {p}: {n} runs x 3 interpreters (hash seeds 0, 12345, 0) + a process started at run "
+                  f"{n // 2}: identical digests")
+        elif d1 == d2 == d3:
+            bad += 1
+            for x, y in zip(d1[n // 2:], d4):
+                if x != y:
+                    print(f"determinism {p}: run depends on the runs before it\n  full {x}\n  tail {y}")
+                    break
         else:
             bad += 1
             for x, y, z in zip(d1, d2, d3):
